@@ -152,6 +152,18 @@ def main():
         k = find(lambda i, x: x["e"] == "EndRun", j)
         return m[:j + 1] + [{"e": "Abort", "inst": m[j]["inst"], "sig": 11}] + m[k + 1:]
     cases.append(("child process crashed", abort, "abort"))
+    # thread-count histories: a phase whose output carries something of an earlier phase / a missing phase
+    i_hrun = find(lambda i, x: x["e"] == "Run" and len(x["hist"]) > 2)
+    i_pout = find(lambda i, x: x["e"] == "Out" and x["kind"] == "fx" and x.get("ph", 0) == 2 and len(x["v"]) > 20 and x["mx"] > 1000, i_hrun)
+
+    def stale(x):
+        v = [q + (q >> 1) for q in x["v"]]      # every element 50 % too large (stale accumulator added)
+        x["v"] = v
+        x["mx"] = max(abs(q) for q in v)
+    cases.append(("output of a later phase contains an earlier contribution", edit(i_pout, stale), "result-differs-from-single-thread-run"))
+    i_pm = find(lambda i, x: x["e"] == "mark" and x["name"] == "phase", i_hrun + 1)
+    i_pm2 = find(lambda i, x: x["e"] == "mark" and x["name"] == "phase", i_pm + 1)
+    cases.append(("a phase of a thread-count history is missing its calls", lambda: [dict(x) for k, x in enumerate(recs) if not (i_pm < k < i_pm2)], None))
     # scatter cache
     try:
         i_sc = find(lambda i, x: x["e"] == "sc.get" and x["st"] == 1 and nonref(i))
